@@ -302,7 +302,13 @@ impl E1Oracle for C09Oracle {
                     .with_snippet(history_snippet("replay", s.specs, &ops_of(s.alphabet, s.hist), &format!("    // {call}: {}\n", detail.replace('\n', " ")))),
             );
         };
-        let weighted = self.weighted;
+        let mut weighted = self.weighted;
+        if weighted && b.edges.iter().any(|e| e.2 == NAN_BITS) {
+            // a state with an unweighted edge in a weighted stage (mixed alphabets): the weighted aggregates are called
+            // but not judged (NaN sums); what they leave behind is judged on the next uniformly weighted state
+            let _ = guarded(|| check_counts(s.g, true, &mut |_, _, _| {}));
+            weighted = false;
+        }
         let r = guarded(|| check_counts(s.g, weighted, &mut fail));
         if let Err(pi) = r {
             rec.record(Violation::new("no_panic", "count/degree query", case_id(s.spec_idx, s.alphabet.name, s.hist, ""), pi.msg.clone()).with_panic(pi).with_tags(tags.clone()));
@@ -314,7 +320,7 @@ pub fn run(tier: &str, rec: &Recorder) -> RunOutput {
     let start = Instant::now();
     let mut out = RunOutput::new("model_checking");
     let cap = wall_cap_s(tier);
-    let stages: Vec<(&'static str, usize, bool)> = if tier == "quick" { vec![("w2", 5, true), ("w3s", 3, true), ("nan2", 5, false), ("w2@alias", 4, true), ("w2b", 3, true)] } else { vec![("w2", 6, true), ("w3", 4, true), ("w3s", 5, true), ("nan3", 5, false), ("w2@alias", 6, true), ("nan3@alias", 4, false), ("w2b", 4, true)] };
+    let stages: Vec<(&'static str, usize, bool)> = if tier == "quick" { vec![("w2", 5, true), ("w3s", 3, true), ("nan2", 5, false), ("w2@alias", 4, true), ("w2b", 3, true), ("mix2", 3, true)] } else { vec![("w2", 6, true), ("w3", 4, true), ("w3s", 5, true), ("nan3", 5, false), ("w2@alias", 6, true), ("nan3@alias", 4, false), ("w2b", 4, true), ("mix2", 4, true)] };
     let n_st = stages.len() as f64;
     let mut notes = vec![];
     let mut ex = true;
